@@ -164,6 +164,11 @@ impl RsdpV2Tag {
     /// Validation of the RSDPv2 extended checksum
     #[must_use]
     pub fn checksum_is_valid(&self) -> bool {
+        // The tag holds the 36 bytes of an ACPI 2.0 RSDP. A larger length
+        // would read beyond the tag.
+        if self.length as usize > Self::BASE_SIZE - size_of::<TagHeader>() {
+            return false;
+        }
         let bytes = unsafe {
             slice::from_raw_parts(self as *const _ as *const u8, self.length as usize + 8)
         };
